@@ -135,6 +135,10 @@ func (w *webWriter) flushWithTrailer() {
 		if err := w.writeTrailer(); err != nil {
 			return // nothing
 		}
+		// Flush the partial group held by the base64 encoder.
+		if c, ok := w.resp.(io.Closer); ok {
+			c.Close()
+		}
 	}
 	w.Flush()
 }
